@@ -50,6 +50,18 @@ mod set_e {
     }
 }
 
+mod set_f {
+    leptos_i18n::declare_locales! {
+        path: leptos_i18n,
+        default: "en",
+        locales: ["en", "en-us", "pt-br", "zh-hant"],
+        en: { k: "x" },
+        en_us: { k: "x" },
+        pt_br: { k: "x" },
+        zh_hant: { k: "x" },
+    }
+}
+
 fn dir_name(d: leptos_i18n::Direction) -> &'static str {
     d.as_str()
 }
@@ -76,7 +88,9 @@ fn ident_ops<L: Locale>(id: &Value, set: &str, probes: &[String], w: &mut Out) {
         let enc = <codee::string::FromToStringCodec as Encoder<L>>::encode(&l).unwrap_or_else(|_| "ERR".to_string());
         w.emit(&json!({"ev": "Ident", "case": id, "set": set, "op": "forms", "locale": name, "display": display, "as_ref": as_ref_str,
                        "icu": icu, "langid": langid, "serde": ser, "cookie": enc,
-                       "direction": dir_name(l.direction()), "cldrDir": cldr_dir(name)}));
+                       "direction": dir_name(l.direction()), "cldrDir": cldr_dir(name),
+                       "icuOfName": name.parse::<icu_locid::Locale>().map(|l| l.to_string()).unwrap_or_else(|_| "unparsable".to_string()),
+                       "langidOfName": name.parse::<icu_locid::LanguageIdentifier>().map(|l| l.to_string()).unwrap_or_else(|_| "unparsable".to_string())}));
     }
     for (pi, p) in probes.iter().enumerate() {
         let from_str = match L::from_str(p) {
@@ -114,6 +128,7 @@ pub fn do_ident(c: &Value, w: &mut Out) {
         "C" => ident_ops::<set_c::i18n::Locale>(&id, set, &probes, w),
         "D" => ident_ops::<set_d::i18n::Locale>(&id, set, &probes, w),
         "E" => ident_ops::<set_e::i18n::Locale>(&id, set, &probes, w),
+        "F" => ident_ops::<set_f::i18n::Locale>(&id, set, &probes, w),
         other => panic!("unknown set {}", other),
     }
 }
